@@ -255,7 +255,7 @@ func Run(ctx *core.Ctx) int {
 	ctx.Cov["graphs"] = graphs
 	ctx.Cov["distinct_nontrivial"] = st.NonTrivial
 	ctx.Cov["exhaustive"] = true
-	ctx.Cov["rule"] = "every module list of n<=3 (thorough: + n=4 with inits {0,5} and no params, n=5 with one initial block, sources {none,block}, no deltas) over kind {map,store,index} x source {none,block,clock} x params-first x inputs subset of earlier modules (map input; store input get/deltas) x block filter {none, an earlier index} x initial block {0,1,5}; plus 5 families of 6-8 modules (ladder, diamond, wide store layer, index fan-out, mixed); every module as output, both modes. Only graphs accepted by the real ValidateModules + NewModuleGraph are judged. Oracle: independent DFS closure; staged exactly once; every input/filter dependency in a strictly earlier layer; layers homogeneous; store layers close their stage; staging errors exactly when a needed module has no input at its initial block; 30 s watchdog per case. Non-trivial: >=2 layers and a store."
+	ctx.Cov["rule"] = "every module list of n<=3 (thorough: + n=4 with inits {0,5} and no params, n=5 with one initial block, sources {none,block}, no deltas) over kind {map,store,index} x source {none,block,clock} x params-first x inputs subset of earlier modules (map input; store input get/deltas) x block filter {none, an earlier index} x initial block {0,1,5}; plus 6 families of 4-8 modules (ladder, diamond, wide store layer, index fan-out, mixed); every module as output, both modes. Only graphs accepted by the real ValidateModules + NewModuleGraph are judged. Oracle: independent DFS closure; staged exactly once; every input/filter dependency in a strictly earlier layer; layers homogeneous; store layers close their stage; staging errors exactly when a needed module has no input at its initial block; 30 s watchdog per case. Non-trivial: >=2 layers and a store."
 	ctx.Assume = []string{"first streamable block 0", "wall-clock watchdog of 30 s per case (normal latency: microseconds)"}
 	return ctx.Finish(core.JSONRecheck(ctx.Prop, Eval))
 }
